@@ -16,12 +16,13 @@ BIN_ARITH = ["add", "sub", "mul", "div", "pow", "log"]
 UN_BOOL = ["not", "rise", "fall", "prev", "sprev", "next", "snext", "once", "hist", "ev", "alw"]
 UN_TIMED = ["onceT", "histT", "evT", "alwT"]
 BIN_BOOL = ["and", "or", "implies", "iff", "xor", "since", "until"]
+SUGAR = ["unless"]
 BIN_TIMED = ["sinceT", "untilT", "precT", "unlessT"]
 UN1 = set(UN_ARITH + UN_BOOL + UN_TIMED)
-BIN2 = set(BIN_ARITH + BIN_BOOL + BIN_TIMED + ["pred"])
+BIN2 = set(BIN_ARITH + BIN_BOOL + BIN_TIMED + ["pred", "unless"])
 TIMED = set(UN_TIMED + BIN_TIMED)
-FUT = {"next", "snext", "ev", "alw", "until", "evT", "alwT", "untilT", "unlessT"}
-UNB_FUT = {"ev", "alw", "until"}
+FUT = {"next", "snext", "ev", "alw", "until", "evT", "alwT", "untilT", "unlessT", "unless"}
+UNB_FUT = {"ev", "alw", "until", "unless"}
 PAST_STATEFUL = {"prev", "sprev", "once", "hist", "since", "onceT", "histT", "sinceT", "rise", "fall", "precT"}
 
 CMP_TXT = {"ge": ">=", "gt": ">", "le": "<=", "lt": "<", "eq": "==", "ne": "!=="}
@@ -31,7 +32,7 @@ KW = {"abs": "abs", "sqrt": "sqrt", "exp": "exp", "ln": "ln", "pow": "pow", "log
       "ev": "eventually", "alw": "always", "onceT": "once", "histT": "historically",
       "evT": "eventually", "alwT": "always", "and": "and", "or": "or", "implies": "implies",
       "iff": "iff", "xor": "xor", "since": "since", "until": "until", "sinceT": "since",
-      "untilT": "until", "unlessT": "unless", "add": "+", "sub": "-", "mul": "*", "div": "/"}
+      "untilT": "until", "unlessT": "unless", "unless": "unless", "add": "+", "sub": "-", "mul": "*", "div": "/"}
 
 
 def var(v): return {"op": "var", "v": v}
@@ -137,7 +138,7 @@ def to_text(p, S=1):
         return KW[op] + " ( " + to_text(p["l"], S) + " )"
     if op in UN_TIMED:
         return KW[op] + " " + interval_text(p) + " ( " + to_text(p["l"], S) + " )"
-    if op in ("and", "or", "implies", "iff", "xor", "since", "until"):
+    if op in ("and", "or", "implies", "iff", "xor", "since", "until", "unless"):
         return "( " + to_text(p["l"], S) + " ) " + KW[op] + " ( " + to_text(p["r"], S) + " )"
     if op in ("sinceT", "untilT", "unlessT"):
         return "( " + to_text(p["l"], S) + " ) " + KW[op] + " " + interval_text(p) + " ( " + to_text(p["r"], S) + " )"
